@@ -173,11 +173,31 @@ def gen_dep_jobs(tier, seed):
         methods.append({"id": "m9", "prio": 0, "reg": 9, "pos": [c10.cls(1), c10.cls(1), c10.cls(1)], "reqpos": 3, "kwn": [], "kwt": [], "kwreq": [], "body": "leaf"})
         src.append({"id": f"k{q}", "methods": methods, "calls": [[a, b, "i1"] for a in ints[:nk] for b in ("i0", "i2", "i5", "im1")], "keyed": True})
     jobs = []
-    for j in src:
+    # keyed groups whose literals have two values each and share one with the next method: a call with a shared value is
+    # ambiguous whatever the order the handlers reach the generated dispatcher in (a generator of its own, run after the
+    # others, so that their jobs stay what they were)
+    rng2 = random.Random(seed * 6151 + 606)
+    src2 = []
+    for q in range(24 if not thorough else 600):
+        vs = list(ints)
+        rng2.shuffle(vs)
+        nk = rng2.choice([2, 3, 4, 5])
+        methods = []
+        for j in range(nk):
+            pair = sorted((deprt.arg_record(v)["v"] for v in (vs[j], vs[j + 1])), key=lambda t: str(t["v"]))
+            methods.append({"id": f"m{j + 1}", "prio": 0, "reg": j + 1,
+                            "pos": [{"k": "lit", "bound": c10.cls(2), "vals": pair}, c10.cls(rng2.choice([1, 2])), c10.cls(1)],
+                            "reqpos": 3, "kwn": [], "kwt": [], "kwreq": [], "body": "leaf"})
+        methods.append({"id": "m9", "prio": 0, "reg": 9, "pos": [c10.cls(1), c10.cls(1), c10.cls(1)], "reqpos": 3, "kwn": [], "kwt": [], "kwreq": [], "body": "leaf"})
+        shared = [[vs[j], "i0", "i1"] for j in range(1, nk)]
+        rng2.shuffle(shared)
+        src2.append({"id": f"o{q}", "methods": methods, "calls": shared[:2] + [[vs[0], "i2", "i1"]], "keyed": True, "noshuffle": True})
+    for j, rng in [(j, rng) for j in src] + [(j, rng2) for j in src2]:
         calls = [c for c in j["calls"] if isinstance(c, list)]
         if not calls:
             continue
-        rng.shuffle(calls)
+        if not j.get("noshuffle"):
+            rng.shuffle(calls)
         npos = len(j["methods"][0]["pos"])
         for call in calls[: (2 if not thorough else 4)]:
             base = renumber(j["methods"])
